@@ -50,6 +50,16 @@ CHECKS = {
    technique="TLA+ poll-granular model of Symbolizer::get_symbols over an async mutex per module key (SymbolCache.tla) model-checked by TLC (AtMostOnce, SameOutcome, Counters, Progressive, LockSane) over all poll/open interleavings incl. spurious polls; every complete bounded behaviour replayed poll-exactly on the real Symbolizer; free-running executors summarised and judged by TLC (Trace_SymbolCache.tla)",
    text="All interleavings of three concurrent tasks (1-3 lookups each over 1-3 module keys, suppliers that suspend 0-3 times and answer Ok/NotFound/ParseError/LoadError) are explored exhaustively; a variant that drops the lock across the supplier await is required to violate AtMostOnce (vacuity guard). Each complete behaviour is executed on the real Symbolizer by a hand-written executor that polls exactly the named task, with pending_stats and per-task observations compared after every step and supplier call counts, observed outcomes (each requester must see its own module's symbols) and counters at the end. Keys differ in exactly one component of the module identity.",
    note="Trusted: TLC, SymbolCache.tla, the executor / gated mock supplier in replay_symcache.rs. Cancellation excluded (as in the statement). Thread-level interleavings inside tokio are sampled only."),
+ "C04": dict(
+   level="model_checking", design_ref="DESIGN.md section 5 'C05 / C04'",
+   technique="TLA+ model of the x86-64 get_caller_frame loop (WalkerAmd64.tla) with a stack builder; TLC checks that the modelled walk of every built stack is exactly the generated call chain; every built stack is materialised and walked by the real walk_stack and compared frame for frame",
+   text="Build(chain) lays out a well-formed stack for every chain of up to MaxDepth calls, each found by frame pointer, STACK CFI or scanning, with filler sizes that include the last word inside the 40- and 160-word scan windows. TLC proves MatchesBuild on the model (the walk returns exactly the chain and stops at its end); the harness turns each built stack into a real context, stack memory, module list and symbol text and requires the real walker to return the same frames (return address, lookup address, sp, frame pointer value and validity, technique).",
+   note="Trusted: TLC, WalkerAmd64.tla, harness/src/walk.rs (materialisation and projection through public accessors). Claimed for x86-64 (non-Windows) chains only: x86/STACK WIN, ARM, ARM64 and MIPS chains are not yet built (their walkers are covered by the C05 monitors, not by exact chain recovery)."),
+ "C05": dict(
+   level="model_checking", design_ref="DESIGN.md section 5 'C05 / C04'",
+   technique="TLA+ model of the x86-64 walker with the C05 predicates as invariants, exhaustively explored by TLC and replayed for exact agreement on the real walker; for all six walkers, recorded real call stacks from seeded random inputs are judged by TLC (Trace_Walk.tla, exact u64 on limbs)",
+   text="C05 is a set of predicates over the produced frames; they are stated once in TLA+ and evaluated (a) as invariants of the amd64 walker model over every small stack/context/rule combination, which the real walker must reproduce exactly, and (b) by TLC on call stacks recorded from the real walk_stack for amd64, x86, arm64 (both layouts), arm and mips under seeded random contexts (0 / 2^32-1 / 2^64-1 / near stack bounds), random stack bytes with planted pointers, stacks at the top of the address space, random module lists and CFI/STACK WIN text that puts the CFA below, at or above sp.",
+   note="Trusted: TLC, Trace_Walk.tla, Words.tla (self-tested), harness/src/walk.rs. Arbitrary inputs are sampled, not enumerated, for the architectures without a step model."),
 }
 
 NA_DEFAULT = "check not built yet (work in progress; DESIGN.md section 5 has the planned specification)"
